@@ -1,8 +1,7 @@
 import Rtsp.Proofs.Hdr.Transport
 import Rtsp.Proofs.Hdr.RtpInfo
-import Rtsp.Model.Headers.Range
-import Rtsp.Model.Headers.Authenticate
-import Rtsp.Model.Headers.KeyMgmt
+import Rtsp.Proofs.Hdr.Range
+import Rtsp.Proofs.Hdr.KeyMgmt
 /-
 C09 — RTSP header codecs round-trip and parse deterministically.
 
@@ -89,5 +88,35 @@ theorem Session.unmarshal_marshal (h : Session) (wf : h.WellFormed) :
 
 theorem RtpInfo.unmarshal_marshal (h : List RtpInfoEntry) (wf : Hdr.RtpInfo.WellFormed h) :
     Hdr.RtpInfo.unmarshal [Hdr.RtpInfo.marshal h] = .ok h := Hdr.RtpInfo.unmarshal_marshal h wf
+
+theorem Range.unmarshal_marshal (h : Range) (wf : h.WellFormed) :
+    Hdr.Range.unmarshal [h.marshal] = .ok h := Hdr.Range.unmarshal_marshal h wf
+
+/-- the three kinds of time inside a Range, individually -/
+theorem Range.npt_time_roundtrip (d : Int) (h0 : 0 ≤ d) (h1 : d < 1000000000000000) :
+    nptTime (nptMarshalTime d) = .ok d := nptTime_marshal h0 h1
+
+theorem Range.smpte_time_roundtrip (t : SmpteTime) (wf : t.WF) : SmpteTime.unmarshal t.marshal = .ok t :=
+  SmpteTime.unmarshal_marshal t wf
+
+theorem Range.utc_time_roundtrip (c : Civil) (wf : c.WF) : parseUTC (marshalUTC c) = .ok c :=
+  parseUTC_marshalUTC c wf
+
+theorem Authenticate.unmarshal_marshal (h : Authenticate) (wf : h.WellFormed) :
+    Hdr.Authenticate.unmarshal [h.marshal] = .ok h := Hdr.Authenticate.unmarshal_marshal h wf
+
+/-- includes Basic credentials whose password contains `:` (the repaired C10 defect) -/
+theorem Authorization.unmarshal_marshal (h : Authorization) (wf : h.WellFormed) :
+    Hdr.Authorization.unmarshal [h.marshal] = .ok h := Hdr.Authorization.unmarshal_marshal h wf
+
+example : Hdr.Authorization.unmarshal [(Authorization.marshal { method := .basic, username := cs!"user", basicPass := cs!"my:pass" })] =
+    .ok { method := .basic, username := cs!"user", basicPass := cs!"my:pass" } :=
+  Authorization.unmarshal_marshal _ (by decide)
+
+theorem Mikey.unmarshal_marshal (m : Mikey.Message) (wf : m.WF) :
+    Mikey.Message.unmarshal m.marshal = some m := Mikey.Message.unmarshal_marshal m wf
+
+theorem KeyMgmt.unmarshal_marshal (h : KeyMgmt) (wf : h.WellFormed) :
+    Hdr.KeyMgmt.unmarshal [h.marshal] = .ok h := Hdr.KeyMgmt.unmarshal_marshal h wf
 
 end Rtsp.C09
